@@ -1,4 +1,4 @@
 import PyodaModel.DriverLoop
-import PyodaModel.ZoneOps
+import PyodaModel.ZoneCheck
 
-def main : IO Unit := Pyoda.runDriverS (∅ : Pyoda.Zone.Registry) Pyoda.Zone.step
+def main : IO Unit := Pyoda.runDriverS (∅ : Pyoda.Zone.Registry) Pyoda.Zone.stepC
